@@ -87,11 +87,12 @@ class Seam:
         saved, self.plan = self.plan, None
         for t in list(self.live):
             try:
-                t._delete_on_close = False
+                if isinstance(t, RecText):
+                    t._delete_on_close = False
                 t.close()
             except Exception:
                 try:
-                    t.buffer.raw.close()
+                    (t.buffer.raw if isinstance(t, RecText) else getattr(t, "raw", t)).close()
                 except Exception:
                     pass
         self.live.clear()
@@ -142,16 +143,23 @@ class Seam:
 
     # ------------------------------------------------------------------ open
     def open(self, path, mode="r", buffering=-1, encoding=None, errors=None, newline=None, closefd=True, opener=None):
-        if "b" in mode or buffering == 0 or not closefd or opener is not None:
+        if not closefd or opener is not None:
             raise common.ToolingError(f"I/O seam: unsupported open({path!r}, {mode!r}) - extend tfmc/ioseam.py")
-        m = mode.replace("t", "")
+        binary = "b" in mode
+        m = mode.replace("t", "").replace("b", "")
         raw = RecRaw(self, _os.fspath(path), m)
+        if binary and buffering == 0:
+            self.live.add(raw)
+            return raw
         if "+" in m:
             buf = io.BufferedRandom(raw)
         elif m.startswith("r"):
             buf = io.BufferedReader(raw)
         else:
             buf = io.BufferedWriter(raw)
+        if binary:
+            self.live.add(raw)  # (the buffered object cannot be weak-referenced; closing its raw file is enough here)
+            return buf
         txt = RecText(buf, encoding=encoding, errors=errors, newline=newline)
         txt._seam = self
         txt.mode = mode
